@@ -191,7 +191,8 @@ class Representation(ObjectWithFields):
                 seg.duration = dur
                 try:
                     for kid in atom.pssh.key_ids:
-                        key_ids.add(KeyMaterial(raw=kid))
+                        # the key IDs of a pssh box are HexBinary objects
+                        key_ids.add(KeyMaterial(raw=getattr(kid, 'data', kid)))
                 except AttributeError:
                     pass
                 tfdt = atom.traf.find_child('tfdt')
@@ -225,7 +226,9 @@ class Representation(ObjectWithFields):
                     rv.process_moov(atom, key_ids)
                     moov = atom
         if rv.encrypted:
-            rv.kids = list(key_ids)
+            # KeyMaterial objects do not compare by value: the default KID
+            # is usually listed by the pssh boxes as well
+            rv.kids = list({kid.hex: kid for kid in key_ids}.values())
             if rv.default_kid is None and rv.kids:
                 rv.default_kid = rv.kids[0]
         if representation_start_time is None:
